@@ -969,6 +969,13 @@ func c09BuildRunner(c *c09Case) (c09Runner, error) {
 		}
 		return c09OptShareRunner(c, r), nil
 	case "inflight":
+		if c.FL != nil && c.FL.Hold != "" {
+			r, err := c09BuildHold(c)
+			if err != nil {
+				return nil, err
+			}
+			return c09HoldRunner(c, r), nil
+		}
 		rs, err := c09BuildFlight(c)
 		if err != nil {
 			return nil, err
